@@ -320,6 +320,7 @@ def gen_case(rng, index, tier):
     L, trashes, entries = trashworld.make(
         rng, index, n_entries=n, dates=['2000-01-01T00:00:00'], tz=tz,
         kinds=kinds)
+    mp = trashworld.mount_on_payload(L, rng, entries, p=0.06)
     # rewrite the info files according to specs
     for e, (kind, td) in zip(entries, specs):
         pv = trashgen.path_value(e['loc'], e['volume'], e['home'])
@@ -432,7 +433,7 @@ def run_case(case):
             if e['dkind'] == 'boundary':
                 obs['boundary_entries'] = obs.get('boundary_entries', 0) + 1
                 near = True
-            if e['kind'] in ('tree_locked', 'tree_readonly') and case.get('drop_caps') \
+            if trashworld.unremovable(e, case) \
                     and exp is not False and st != 'gone':
                 # the payload cannot be removed (permissions): what is left of
                 # it must keep its .trashinfo (still listed, still restorable)
@@ -467,10 +468,9 @@ def run_case(case):
             obs['no_days_runs'] = 1
             # nothing may remain: no info, no payload
             unrem = set()
-            if case.get('drop_caps'):
-                for e in case['entries']:
-                    if e['kind'] in ('tree_locked', 'tree_readonly'):
-                        unrem.update(trashworld.pair_keys(e))
+            for e in case['entries']:
+                if trashworld.unremovable(e, case):
+                    unrem.update(trashworld.pair_keys(e))
             left = [k for k in s1 if (putcheck.is_payload_root(k) or
                                       putcheck.is_info(k)) and
                     any(k.startswith(t + '/') for t in case['trashes'])
@@ -498,6 +498,9 @@ def run_case(case):
                     'mechanism': 'traceback',
                     'detail': {'run': r.brief()}})
         out['nontrivial'] = near
+        if any(e.get('mountpoint') for e in case['entries']):
+            obs['payload_is_a_mount_point'] = 1
+            out['replayable'] = False    # (a real mount would hide the content)
         out['sample_obs'] = {'exit': r.exit, 'args': args,
                              'states': [trashworld.entry_state(s0, s1, e)
                                         for e in case['entries']]}
